@@ -28,7 +28,7 @@ import (
 //   - with a nil callback: any of the above (the callback is the only reporting channel).
 // Proportionality: for k-fold replications of a valid body the hook step counts
 // (read through expvar, VERIF_STATS=1) must grow at most 2.2x per doubling, and CPU time on
-// adversarial shapes of size n and 8n must not grow like n^2 (confirmed three times,
+// adversarial shapes (32 hand-written + 450 byte-run x lexical-state shapes) of size n and 8n must not grow like n^2 (confirmed three times,
 // otherwise inconclusive).
 
 func fdSize(fd int) int64 {
@@ -221,6 +221,31 @@ var c01Shapes = []struct {
 	{"yield-from-blanks", func(n int) []byte { return []byte("<?php yield" + strings.Repeat(" \n", n/2) + "x;") }},
 }
 
+// (heredoc bodies start with a text line: an opener line directly followed by its label is recorded finding #5)
+// run shapes: a long run of one byte (or short unit) inside each lexical state — every look-ahead helper and
+// every state's inner loop meets every kind of run, terminated or not.
+func init() {
+	states := []struct{ name, pre, post string }{
+		{"php", "<?php ", ";"}, {"double-quoted", "<?php \"", "\";"}, {"single-quoted", "<?php '", "';"}, {"backtick", "<?php `", "`;"},
+		{"heredoc", "<?php <<<A\nx\n", "\nA;\n"}, {"nowdoc", "<?php <<<'A'\nx\n", "\nA;\n"}, {"heredoc-unterminated", "<?php <<<A\nx", ""},
+		{"block-comment", "<?php /*", "*/"}, {"line-comment", "<?php //", "\n;"}, {"html", "", "<?php ;"}, {"after-arrow", "<?php $a->", "b;"},
+		{"string-offset", "<?php \"$a[", "]\";"}, {"dollar-brace", "<?php \"${", "}\";"}, {"halt-tail", "<?php __halt_compiler();", ""},
+		{"double-quoted-unterminated", "<?php \"x", ""},
+	}
+	units := []string{" ", "\t", "\n", "\r\n", "\\", "$", "{", "a", "0", "<", "?", "-", "*", "/", "#", "\"", "'", "`", "$a", "{$", "->", "\\\\", " A\n", "A\n", "\n A", " \n", "\\$", "\\\"", "?>", "<?"}
+	for _, st := range states {
+		for _, u := range units {
+			st, u := st, u
+			c01Shapes = append(c01Shapes, struct {
+				name string
+				make func(n int) []byte
+			}{"run:" + st.name + ":" + strconv.Quote(u), func(n int) []byte {
+				return []byte(st.pre + strings.Repeat(u, n/len(u)) + st.post)
+			}})
+		}
+	}
+}
+
 func c01CtxCases(p core.Params) int {
 	if p.Thorough() {
 		return gen.CtxBytesCount()
@@ -394,8 +419,8 @@ func init() {
 			switch k := idx % 400; {
 			case k == 7:
 				c01Proportion(c, r, pickVersion(r))
-			case k == 13 || k == 213:
-				sizes := []int{2048, 8192}
+			case k%50 == 13:
+				sizes := []int{2048, 8192, 8192}
 				if c.P.Thorough() {
 					sizes = []int{2048, 8192, 32768, 131072}
 				}
